@@ -1,6 +1,6 @@
 (* Sx front end of the scheduling model (C14).
 
-   request   [[st, role, treq, [pre-history msgs]], [task..], [choice..]]
+   request   [[st, role, treq, [pre-history msgs], [numbers of journal rows deleted after the pre-history]], [task..], [choice..]]
      msg    = [ty, id, [own]?, pd, gapfill]
      instr  = [0,msg] send | [1,msg] send-rest | [2] send_test_req | [3,s,ua] _state_set hook | [4] hook
             | [5,r] role | [6,b,e,[declined..]] resend | [8,e] raise | [9] finally of the resend try
@@ -72,9 +72,12 @@ Fixpoint run_alone (fuel : nat) (c : config) : config :=
 
 Definition fresh (rl : Z) : world := mkW 1 0 [] [] S_ACTIVE rl false 0.
 
-Definition init_world (s rl : Z) (tq : bool) (pre : list msg) : world :=
+Definition drop_rows (holes : list Z) (w : world) : world :=
+  mkW (nout w) (sout w) (filter (fun r => negb (mem_z (fst r) holes)) (rows w)) (rwire w) (st w) (role w) (treq w) (tick w).
+
+Definition init_world (s rl : Z) (tq : bool) (pre : list msg) (holes : list Z) : world :=
   let c := run_alone (2 * length pre + 2) (mkC (fresh rl) [sender_task pre]) in
-  set_treq tq (set_st s (c_w c)).
+  drop_rows holes (set_treq tq (set_st s (c_w c))).
 
 Definition observe (c0 : config) (sched : list nat) : sx :=
   let c := run_sched c0 sched in
@@ -85,10 +88,10 @@ Definition observe (c0 : config) (sched : list nat) : sx :=
 
 Definition run (req : sx) : sx :=
   match req with
-  | SL [SL [SI s; SI rl; tq; pre]; ts; sched] =>
-      match get_bool tq, get_list get_msg pre, get_list get_task ts, get_list get_nat sched with
-      | Some tq, Some pre, Some ts, Some sched => observe (mkC (init_world s rl tq pre) ts) sched
-      | _, _, _, _ => err_sx 1
+  | SL [SL [SI s; SI rl; tq; pre; holes]; ts; sched] =>
+      match get_bool tq, get_list get_msg pre, get_list get_z holes, get_list get_task ts, get_list get_nat sched with
+      | Some tq, Some pre, Some holes, Some ts, Some sched => observe (mkC (init_world s rl tq pre holes) ts) sched
+      | _, _, _, _, _ => err_sx 1
       end
   | _ => err_sx 2
   end.
